@@ -16,6 +16,7 @@ import ControlModel.Gen.FailureFacts
 import ControlModel.Proofs.Env
 import ControlModel.Proofs.EnvConc
 import ControlModel.Proofs.EnvPair
+import ControlModel.Proofs.EnvPhase
 import ControlModel.Spec.C01
 
 open EnvM
@@ -668,3 +669,134 @@ theorem C01_pair_every_schedule (hooks : List Hook) (n : Nat) (env : Env) (a b :
 example :
     let s := runSched [] 1 (pairStart [] 1 {} (.teardown true true true) (.control .DEPLOY true false)) [1, 1, 0, 1, 1, 1, 1, 1, 1, 1]
     s.allDone = true ∧ s.env.st = .DONE ∧ s.log.map (fun x => (x.caller, x.after.st)) = [(0, .DONE), (1, .DONE), (1, .DONE)] := by decide
+
+/-! ### the task phase of a transition lies inside its critical section -/
+
+/-- How the task-level body of a transition is run, re-read from the source by go/ast on every run: the only
+    function of core/environment that calls `Transition.do` is handlerFunc (the helper of the leave_<state>
+    callback, which runs inside `Sm.Event`, i.e. inside TryTransition's critical section —
+    `C01_lock_sites_are_code`), and it WAITS for it for as long as the tasks take: a plain call in the
+    function literal it returns, no go statement, no select, no timer or deadline anywhere in it. This is
+    `codePhaseCfg` (`abandon = false`): a `.caller` move of Model/EnvPhase is not enabled while the caller's
+    `do` has not returned, and there is no `.giveUp` move. A `do` run in a goroutine and waited for with a
+    time limit ("the tasks get so long to answer") makes this theorem false. -/
+theorem C01_task_phase_is_synchronous_is_code :
+    Gen.bodyCallSites = [("handlerFunc", !codePhaseCfg.abandon)] := by decide
+
+/-- **At most one task phase at any instant, and it lies inside its critical section**: for EVERY set of
+    concurrent callers and EVERY schedule of their moves and of the tasks' answers — however late an answer
+    comes — at most one command is unanswered, the transitions waiting for an answer are exactly those whose
+    command is unanswered, the caller of that transition is inside the mutex (nobody else can be: `C01_mutex`
+    through `C01_task_phase_schedules_are_schedules`), and so the mutex is not free while the tasks work. -/
+theorem C01_task_phases_never_overlap (hooks : List Hook) (n : Nat) (env : Env) (reqs : List Req) (sched : List PMove) :
+    let ps := runPhases codePhaseCfg hooks n (initPSys env reqs) sched
+    ps.unanswered.length ≤ 1 ∧ ps.waiting = ps.unanswered ∧
+      (∀ i ∈ ps.unanswered, isHoldingAt ps.sys i = true) ∧ (ps.unanswered ≠ [] → ps.sys.free = false) := by
+  intro ps
+  have h := phaseInv_run hooks n env _ sched (phaseInv_init hooks n env reqs)
+  have hs : ps.waiting = ps.unanswered := h.same
+  rcases h.open_ with hw | ⟨j, hw, hj⟩
+  · have hu : ps.unanswered = [] := by rw [← hs]; exact hw
+    refine ⟨?_, hs, ?_, fun hne => absurd hu hne⟩
+    · rw [hu]; exact Nat.zero_le 1
+    · intro i hi; rw [hu] at hi; cases hi
+  · have hu : ps.unanswered = [j] := by rw [← hs]; exact hw
+    refine ⟨?_, hs, ?_, fun _ => ?_⟩
+    · rw [hu]; exact Nat.le_refl 1
+    · intro i hi; rw [hu] at hi; simp only [List.mem_singleton] at hi; subst hi; exact hj
+    · obtain ⟨cj, hcj, hh⟩ := (isHoldingAt_iff _ _).mp hj
+      exact not_free_of_holding _ j cj hcj hh
+
+/-- **Every answer of the tasks is received by the transition that asked**: under every schedule, each
+    TasksStateChangedEvent delivered so far went to the `do` of the caller whose command it answers. -/
+theorem C01_answer_goes_to_the_transition_that_asked (hooks : List Hook) (n : Nat) (env : Env) (reqs : List Req)
+    (sched : List PMove) :
+    ∀ p ∈ (runPhases codePhaseCfg hooks n (initPSys env reqs) sched).consumed, p.1 = p.2 :=
+  (phaseInv_run hooks n env _ sched (phaseInv_init hooks n env reqs)).cons
+
+/-- Whatever a schedule with task phases reaches, the concurrent layer of Model/EnvConc reaches by a schedule
+    of its own: the task phase adds waiting, never a new behaviour … -/
+theorem C01_task_phase_schedules_are_schedules (cfg : PhaseCfg) (hooks : List Hook) (n : Nat) (env : Env)
+    (reqs : List Req) (sched : List PMove) :
+    ∃ sched' : List Nat, (runPhases cfg hooks n (initPSys env reqs) sched).sys = runSched hooks n (initSys env reqs) sched' :=
+  runPhases_sys cfg hooks n (initPSys env reqs) sched
+
+/-- … hence **a request that runs sees the state the previous one left, bodies with their task phases
+    included**: under every schedule of callers' moves and late answers, at most one caller is inside the mutex,
+    the executed pieces form a chain from the initial environment to the present one, and each did what it does
+    when run alone. -/
+theorem C01_serial_with_task_phases (hooks : List Hook) (n : Nat) (env : Env) (reqs : List Req) (sched : List PMove) :
+    let s := (runPhases codePhaseCfg hooks n (initPSys env reqs) sched).sys
+    AtMostOne s.callers ∧ chained env s.log ∧ lastEnv env s.log = s.env ∧ ∀ x ∈ s.log, x.faithful hooks n := by
+  intro s
+  obtain ⟨sched', hs⟩ := C01_task_phase_schedules_are_schedules codePhaseCfg hooks n env reqs sched
+  have hs' : s = runSched hooks n (initSys env reqs) sched' := hs
+  rw [hs']
+  exact ⟨C01_mutex hooks n env reqs sched', (C01_serial hooks n env reqs sched').1, (C01_serial hooks n env reqs sched').2,
+    C01_pieces_atomic hooks n env reqs sched'⟩
+
+/-- **While the tasks work on one transition, a request that arrives can do nothing**: with caller `j` in its
+    task phase (however long), every move of a caller that has not been inside the mutex yet leaves the
+    environment, the log and the open task phase as they are. -/
+theorem C01_newcomer_waits_for_task_phase (hooks : List Hook) (n : Nat) (ps : PSys) (i j : Nat) (hij : i ≠ j)
+    (hw : ps.waiting = [j]) (hh : HeldBy ps.sys j) :
+    let ps' := pmove codePhaseCfg hooks n ps (.caller i)
+    ps'.sys.env = ps.sys.env ∧ ps'.sys.log = ps.sys.log ∧ ps'.waiting = [j] ∧ ps'.unanswered = ps.unanswered ∧ HeldBy ps'.sys j := by
+  have hm := heldBy_move hooks n ps.sys j i hij hh
+  have key : pmove codePhaseCfg hooks n ps (.caller i) = { ps with sys := move hooks n ps.sys i } ∨
+      pmove codePhaseCfg hooks n ps (.caller i) = ps := by
+    cases hc : ps.sys.callers[i]? with
+    | none => simp [pmove, hc]
+    | some c =>
+      simp only [pmove, hc]
+      have hnew := hh.2 i c hij hc
+      have hnh : c.isHolding = false := by
+        revert hnew; unfold Caller.isNew Caller.isHolding; cases c.pc <;> simp
+      -- the mutex is busy: the move cannot take it
+      have hstill : isHoldingAt (move hooks n ps.sys i) i = false := by
+        cases hx : isHoldingAt (move hooks n ps.sys i) i with
+        | false => rfl
+        | true =>
+          exfalso
+          obtain ⟨ci, hci, hhi⟩ := (isHoldingAt_iff _ _).mp hx
+          obtain ⟨⟨cj, hcj, hhj⟩, hnew'⟩ := hm.1
+          have := hnew' i ci hij hci
+          revert this hhi; unfold Caller.isNew Caller.isHolding; cases ci.pc <;> simp
+      simp [hnh, hstill]
+  show (pmove codePhaseCfg hooks n ps (.caller i)).sys.env = ps.sys.env ∧ (pmove codePhaseCfg hooks n ps (.caller i)).sys.log = ps.sys.log ∧
+    (pmove codePhaseCfg hooks n ps (.caller i)).waiting = [j] ∧ (pmove codePhaseCfg hooks n ps (.caller i)).unanswered = ps.unanswered ∧
+    HeldBy (pmove codePhaseCfg hooks n ps (.caller i)).sys j
+  rcases key with hk | hk
+  · rw [hk]; exact ⟨hm.2.1, hm.2.2, hw, rfl, hm.1⟩
+  · rw [hk]; exact ⟨rfl, rfl, hw, rfl, hh⟩
+
+/-- Non-vacuity: two callers; the first takes the mutex and sends its command (task phase open), the second
+    arrives and tries three times — nothing; the tasks answer; the first releases; the second runs on the
+    state the first left and has a task phase of its own. -/
+example :
+    let ps := runPhases codePhaseCfg [] 1 (initPSys {} [.try_ .DEPLOY true false, .control .CONFIGURE true false])
+      [.caller 0, .caller 0, .caller 1, .caller 1, .caller 0, .caller 1, .answer 1, .answer 0, .caller 0, .caller 1]
+    ps.consumed = [(0, 0)] ∧ ps.unanswered = [1] ∧ ps.waiting = [1] ∧
+      ps.sys.log.map (fun x => (x.caller, x.before.st, x.after.st)) = [(0, .STANDBY, .DEPLOYED), (1, .DEPLOYED, .CONFIGURED)] := by
+  decide
+
+/-- A body that may be abandoned — `abandonPhaseCfg`, NOT the code: handlerFunc stops waiting for a `do` that
+    has not returned — breaks both statements: caller 0 gives up on its slow tasks and leaves the mutex with its
+    command unanswered, caller 1 is carried out meanwhile: two task phases at once, and the answer to caller
+    1's command is taken by caller 0's abandoned `do`. -/
+theorem C01_abandoned_task_phase_overlaps :
+    ¬ (∀ (hooks : List Hook) (n : Nat) (env : Env) (reqs : List Req) (sched : List PMove),
+        (runPhases abandonPhaseCfg hooks n (initPSys env reqs) sched).unanswered.length ≤ 1) ∧
+    ¬ (∀ (hooks : List Hook) (n : Nat) (env : Env) (reqs : List Req) (sched : List PMove),
+        ∀ p ∈ (runPhases abandonPhaseCfg hooks n (initPSys env reqs) sched).consumed, p.1 = p.2) := by
+  constructor
+  · intro h
+    have := h [] 1 {} [.try_ .DEPLOY true false, .try_ .CONFIGURE true false]
+      [.caller 0, .caller 0, .caller 1, .giveUp 0, .caller 1]
+    revert this
+    decide
+  · intro h
+    have := h [] 1 {} [.try_ .DEPLOY true false, .try_ .CONFIGURE true false]
+      [.caller 0, .caller 0, .caller 1, .giveUp 0, .caller 1, .answer 1] (1, 0)
+    revert this
+    decide
